@@ -238,8 +238,37 @@ def bias_histories(rng, tier):
     return lines
 
 
+def single_channel_histories(rng, tier):
+    """fixed plans: the network leaves exactly ONE channel enabled (each 500 kHz channel in turn with the 500 kHz data rate; the first and
+    last 125 kHz channels with a 125 kHz rate); every later uplink must use that channel and the mask must stay as commanded"""
+    lines = []
+    for region in machist.FIXED:
+        wide = 4 if region == 8 else 6
+        cases = [(wide, 7, 1 << b) for b in range(8)] + [(0, 7, 0)]
+        for dr, ctl, m16 in cases:
+            for rep_ in range(1 if tier == "quick" else 4):
+                r = rng.fork("sc%d.%d.%d.%d" % (region, dr, m16, rep_))
+                net = machist.Net(r, region, 22, 0)
+                net.abp()
+                net.snap()
+                net.op("send 78 1 0 %s" % cover(r, 40))
+                net.snap()
+                if m16:
+                    net.downlink(machist.link_adr(dr, 15, m16, ctl), None, b"")
+                else:
+                    # only channel 0, then only channel 63
+                    net.downlink(machist.link_adr(0, 15, 0x0000, 7) + machist.link_adr(0, 15, r.choice([0x0001]), 0), None, b"")
+                for _ in range(5):
+                    net.snap()
+                    net.op("send 79 1 0 %s" % cover(r, 40))
+                    net.snap()
+                    net.rx2c()
+                lines.append(net.line())
+    return lines
+
+
 def gen(rng, tier):
-    lines = bias_histories(rng.fork("bias"), tier)
+    lines = bias_histories(rng.fork("bias"), tier) + single_channel_histories(rng.fork("single"), tier)
     nh = 60 if tier == "quick" else 240      # thorough: ~50 000 histories (700 took 18 minutes)
     for region in range(9):
         r = rng.fork("p%d" % region)
